@@ -369,6 +369,24 @@ def check(run, prog):
                 offenders.append((fn, n, "constructs a Lexer"))
             if isinstance(n, ast.Call) and text(n.func).startswith("re.") and rel != "rules/check_header.py":
                 offenders.append((fn, n, "uses re"))
+    # ... nor reads the raw text at all: File.source is for the lexer; a rule that scans the source lines (with or without a
+    # regular expression) sees comment text and string contents as code
+    for fn in prog.fns:
+        rel = fn.mod.rel
+        if rel.startswith("lexer/") or rel in ("file.py", "__main__.py"):
+            continue
+        for n in walk_fn(fn.node):
+            if isinstance(n, ast.Attribute) and n.attr in ("source", "_source") and isinstance(n.ctx, ast.Load) \
+                    and (text(n.value).endswith("file") or text(n.value).endswith("File")):
+                offenders.append((fn, n, "reads the raw source text"))
+    for rel, mod in prog.mods.items():
+        if rel.startswith("rules/") and rel != "rules/check_header.py" or rel in ("context.py", "registry.py", "scope.py"):
+            for name, vals in mod.assigns.items():
+                for v in vals:
+                    if isinstance(v, ast.Call) and text(v.func).startswith("re."):
+                        holder = next((f for f in prog.fns if f.mod is mod), None)
+                        if holder is not None:
+                            offenders.append((holder, v, f"compiles the regular expression {name} at module level"))
     run.ob("R-17.3", "rules::no-relexing", not offenders,
            "text is re-lexed outside the lexer: " + ", ".join(f"{f.key} {w}" for f, _, w in offenders[:3]),
            offenders[0][1] if offenders else None)
